@@ -132,6 +132,10 @@ class PermutationReciprocalTransformer(BaseReciprocalTransformer):
         for u in perm_keys:
             perm[u] = lin[perm[u]]
         self.permutation_ = perm
+        # the nearest-neighbour index is built lazily from permutation_
+        for att in ("knn_", "knn_perm_"):
+            if hasattr(self, att):
+                delattr(self, att)
         return self
 
     def _check_is_fitted(self):
